@@ -82,10 +82,10 @@ class C18(Prop):
                 P.append(row)
             if not any(x == 1 for r in P for x in r): continue
             if i % 3 == 0:
-                yield dict(entry="NormalValuationProfileGenerator.generate", family="normal", op="gen_normal", M=P, mean=rng.choice([0.0, 0.5, 1.0, 3.0]), var=rng.choice([0.01, 1.0, 4.0]), seed=i)
+                yield dict(entry="NormalValuationProfileGenerator.generate", family="normal", op="gen_normal", M=P, mean=rng.choice([0.0, 0.5, 1.0, 3.0]), var=rng.choice([0.01, 1.0, 4.0]), seed=(0 if i % 4 == 0 else i))
             else:
                 lo = rng.choice([0.0, 0.0, 0.5, 2.0]); hi = lo + rng.choice([0.0, 1.0, 3.0]) if i % 7 else lo + 1.0
-                yield dict(entry="UniformValuationProfileGenerator.generate", family="uniform", op="gen_uniform", M=P, low=lo, high=max(hi, lo), seed=i)
+                yield dict(entry="UniformValuationProfileGenerator.generate", family="uniform", op="gen_uniform", M=P, low=lo, high=max(hi, lo), seed=(0 if i % 4 == 1 else i))
         N = 200 if tier == "quick" else 4000
         for i in range(N):
             n = rng.randint(1, 4); m = rng.randint(1, 7)
@@ -128,6 +128,7 @@ class C18(Prop):
                 prof = PU.StrictProfile.of(A)
                 o1 = np.asarray(mk(case["seed"]).generate(prof), dtype=float)
                 d1 = [list(d) for d in draws]
+                np.random.seed(case["seed"] + 12345); np.random.random(3)      # the ambient RNG state must not matter
                 o2 = np.asarray(mk(case["seed"]).generate(prof), dtype=float)
                 try:
                     acc = bool(PU.is_consistent_valuation_profile(PU.ValuationProfile.of(o1.copy()), prof))
